@@ -18,5 +18,9 @@ theorem get_object_item_cs_stops_at_nameless : type_of% @Cjet.Props.CjsonTree.ge
 theorem ciEq_refl : type_of% @Cjet.Props.CjsonTree.ciEq_refl := @Cjet.Props.CjsonTree.ciEq_refl
 theorem ciEq_symm : type_of% @Cjet.Props.CjsonTree.ciEq_symm := @Cjet.Props.CjsonTree.ciEq_symm
 theorem get_array_item_in_range : type_of% @Cjet.Props.CjsonTree.get_array_item_in_range := @Cjet.Props.CjsonTree.get_array_item_in_range
+theorem add_member_failure_changes_nothing : type_of% @Cjet.Props.CjsonTree.add_member_failure_changes_nothing := @Cjet.Props.CjsonTree.add_member_failure_changes_nothing
+theorem add_member_attaches_last : type_of% @Cjet.Props.CjsonTree.add_member_attaches_last := @Cjet.Props.CjsonTree.add_member_attaches_last
+theorem add_member_conserves_blocks : type_of% @Cjet.Props.CjsonTree.add_member_conserves_blocks := @Cjet.Props.CjsonTree.add_member_conserves_blocks
+theorem add_member_then_lookup : type_of% @Cjet.Props.CjsonTree.add_member_then_lookup := @Cjet.Props.CjsonTree.add_member_then_lookup
 
 end Cjet.Props.CJSONTREE_DEV
